@@ -143,8 +143,10 @@ def div(op, input, other):
     if not isinstance(input, QBytesTensor) or not is_positive_scalar(other):
         # Only the division of a quantized tensor by a scalar can be applied to the scale
         return qfallback(op, input, other)
-    # We just divide the scale (that keeps its dtype, as a Tensor divided by a scalar does)
-    out_scale = op(input._scale, other).to(input._scale.dtype)
+    # We just divide the scale (that keeps its dtype when the Tensor has dimensions, as a Tensor divided by a scalar does)
+    out_scale = op(input._scale, other)
+    if input.ndim > 0:
+        out_scale = out_scale.to(input._scale.dtype)
     return QBytesTensor(input.qtype, input.axis, input.size(), input.stride(), input._data, out_scale)
 
 
@@ -235,12 +237,16 @@ def mm(op, input, other):
 @register_qbytestensor_op([torch.ops.aten.mul])
 def mul(op, input, other):
     # If one of the multiplicands is a scalar, just multiply the scale
-    # (the scale keeps its dtype, as a Tensor multiplied by a scalar does)
+    # (the scale of a Tensor with dimensions keeps its dtype, as a Tensor multiplied by a scalar does)
     if is_positive_scalar(input) and isinstance(other, QBytesTensor):
-        out_scale = (input * other._scale).to(other._scale.dtype)
+        out_scale = input * other._scale
+        if other.ndim > 0:
+            out_scale = out_scale.to(other._scale.dtype)
         return QBytesTensor(other.qtype, other.axis, other.size(), other.stride(), other._data, out_scale)
     if is_positive_scalar(other) and isinstance(input, QBytesTensor):
-        out_scale = (other * input._scale).to(input._scale.dtype)
+        out_scale = other * input._scale
+        if input.ndim > 0:
+            out_scale = out_scale.to(input._scale.dtype)
         return QBytesTensor(input.qtype, input.axis, input.size(), input.stride(), input._data, out_scale)
     return qfallback(op, input, other)
 
